@@ -1057,3 +1057,38 @@ def app_sequence_wrap(ctx):
 
 def ismax_in(prog, x):
     return mentions_constdef(x, r"sequence::Sequence::MAX_VALUE$") or mentions_const(x, 15)
+
+
+def arg_namesakes(ctx, prog, label="arg-namesake"):
+    """Call arguments that are a plain field read `x.f`, handed to a local function whose parameter is named `p`: when some struct
+    has both a field `f` and a field `p` OF THE SAME TYPE and f != p, the call type-checks whichever of the two siblings is written
+    there and silently swaps two settings (`create_layer(.., config.features.broadcast /* self_address */, ..)`). Crate-wide; every
+    field argument must be the parameter's namesake or have no same-typed sibling of the parameter's name."""
+    structs = [dict((f[0], f[1]) for f in a["variants"][0]["fields"]) for a in prog.adts.values() if a["kind"] == "struct"]
+
+    def sibling(f, q):
+        return any(f in s_ and q in s_ and s_[f] == s_[q] for s_ in structs)
+
+    n = 0
+    for bd in prog.bodies.values():
+        if "::test" in bd.path:
+            continue
+        sym = None
+        for b in bd.calls():
+            c = b.term.callee
+            if not c or c not in prog.fns:
+                continue
+            params = prog.fns[c].get("params") or []
+            if not params:
+                continue
+            sym = sym or ctx.sym(bd)
+            e = sym.call_expr(b.term)
+            if e[0] != "call" or len(e[2]) != len(params):
+                continue
+            for a, pn in zip(e[2], params):
+                if not pn or pn == "self" or a[0] != "field" or not isinstance(a[2], str) or a[2].isdigit():
+                    continue
+                n += 1
+                if a[2] != pn and sibling(a[2], pn):
+                    ctx.bad("%s@%s:%s(%s)" % (label, short(bd.path), short(c).split("::")[-1], pn), "parameter `%s` of %s is given `%s` although a sibling field `%s` of the same type exists: two settings are swapped" % (pn, short(c), expr_str(a)[:60], pn), bd.where(b.idx))
+    ctx.check(n >= 500, "%s:census" % label, "%d field arguments of local calls examined" % n, "")
